@@ -5,20 +5,64 @@ from verif.core import Infra
 META = dict(
     technique="TLA+ state machine of the net/http ResponseWriter contract (HTTPWriter.tla) explored by TLC over all handler programs of <= N calls; every program replayed three-way: spec prediction vs net/http server vs fasthttpadaptor.NewFastHTTPHandler behind a fasthttp server (B1); TLC-enumerated valid request byte strings parsed by http.ReadRequest (oracle) and by ConvertRequest through a fasthttp server (B3, differential)",
     design_ref="DESIGN.md §4 C36",
-    text="HTTPWriter.tla: WriteHeader(1xx) informs without committing, the first other WriteHeader (or Write/Flush, as 200) commits status and snapshots the header map, later calls are ignored, no-body statuses drop writes, Content-Type is sniffed when the head leaves with body bytes. TLC enumerates all programs over {WriteHeader 103/200/204/404/500, Header.Add X-A v1/v2, Set Content-Type, Write a/b, Flush} and prints the predicted final response; the harness runs each program behind net/http and behind the adaptor, reads both connections to EOF and compares final status, X-A values, Content-Type and body. A disagreement between the specification and net/http is an infrastructure error (exit 2), between the adaptor and net/http a violation. Requests: 17664 valid requests from a token menu (7 methods, 6 targets incl. absolute-form, HTTP/1.0 and 1.1, repeated / lower-case / padded / empty header fields, Content-Length and chunked bodies).",
+    text="HTTPWriter.tla: WriteHeader(1xx) informs without committing, the first other WriteHeader (or Write/Flush, as 200) commits status and snapshots the header map, later calls are ignored, no-body statuses drop writes, Content-Type is sniffed when the head leaves with body bytes. TLC enumerates all programs over {WriteHeader 103/200/204/404/500, Header.Add X-A v1/v2, Set Content-Type, Write a/b, empty Write, Flush} and prints the predicted final response; the harness runs each program behind net/http and behind the adaptor, reads both connections to EOF and compares final status, X-A values, Content-Type and body. A disagreement between the specification and net/http is an infrastructure error (exit 2), between the adaptor and net/http a violation. HTTPAdaptorHist.tla adds histories: every schedule of serve/read events of K calls through ONE adaptor handler x body size classes around the 32 KiB pooled buffer (a served, unread response owns its body: Isolation); each call runs a drawn program with its own body bytes and is compared with its own net/http reference. Requests: 17664 valid requests from a token menu (7 methods, 6 targets incl. absolute-form, HTTP/1.0 and 1.1, repeated / lower-case / padded / empty header fields, Content-Length and chunked bodies).",
     note="Trusted: net/http as the reference implementation of its own contract (the TLA+ model is checked against it on every program), http.ReadResponse as the client-side parser. Content-Type is compared when net/http sends one; fasthttp's server-default Content-Type on responses where net/http sends none is not handler behaviour. Trailers, Hijack and panics are out of scope (property text).",
 )
 
 
+def tlc_parallel(ctx, jobs):
+    """jobs: list of (method, args, kwargs) with method in {"tlc_mc", "tlc_gen"}.  Only the TLC processes
+    run concurrently (ctx.tlc in threads, scratch-directory numbering serialised by a lock); afterwards
+    ctx.tlc_mc / ctx.tlc_gen do their normal bookkeeping sequentially on the stored results."""
+    import threading
+    lock = threading.Lock()
+    orig = ctx._specdir
+
+    def specdir(area):
+        with lock:
+            return orig(area)
+    ctx._specdir = specdir
+    raw = [None] * len(jobs)
+
+    def work(i, args, kw):
+        try:
+            raw[i] = ("ok", ctx.tlc(*args, **{k: v for k, v in kw.items() if k != "outfile"}))
+        except BaseException as e:      # replayed in the main thread below
+            raw[i] = ("err", e)
+    ths = [threading.Thread(target=work, args=(i, a, k)) for i, (_, a, k) in enumerate(jobs)]
+    for t in ths:
+        t.start()
+    for t in ths:
+        t.join()
+    del ctx._specdir
+    out = []
+    for (m, args, kw), (st, val) in zip(jobs, raw):
+        def stored(*a, _st=st, _val=val, **k):
+            if _st == "err":
+                raise _val
+            return _val
+        ctx.tlc = stored
+        try:
+            out.append(getattr(ctx, m)(*args, **kw))
+        finally:
+            del ctx.tlc
+    return out
+
+
 def run(ctx):
     n = ctx.pick(3, 4)
-    _, beh = ctx.tlc_gen("util", "HTTPWriterGen", "HTTPWriterGen.cfg", consts={"LEN": n}, workers=2, timeout=900)
+    jobs = [("tlc_gen", ("util", "HTTPWriterGen", "HTTPWriterGen.cfg"), dict(consts={"LEN": n}, workers=2, timeout=900)),
+            # longer programs: seeded simulation (each printed state is a program prefix)
+            ("tlc_gen", ("util", "HTTPWriterGen", "HTTPWriterGen.cfg"),
+             dict(consts={"LEN": ctx.pick(5, 7)}, workers=1, timeout=900, simulate="num=%d" % ctx.pick(100, 2000), depth=10,
+                  args=["-seed", str(ctx.seed)])),
+            ("tlc_gen", ("util", "HTTPReqGen", "HTTPReqGen.cfg"), dict(outfile="reqvectors.ndjson", workers=2, timeout=900)),
+            # histories through one adaptor handler: all serve/read schedules of K calls x body size classes
+            ("tlc_gen", ("util", "HTTPAdaptorHistGen", "HTTPAdaptorHistGen.cfg"), dict(consts={"K": ctx.pick(3, 4)}, workers=2, timeout=900))]
+    (_, beh), (_, sim), (vp, _), (_, sched) = tlc_parallel(ctx, jobs)
     if not beh:
         raise Infra("HTTPWriterGen produced no behaviours")
     nex = len(beh)
-    # longer programs: seeded simulation (each printed state is a program prefix)
-    _, sim = ctx.tlc_gen("util", "HTTPWriterGen", "HTTPWriterGen.cfg", consts={"LEN": ctx.pick(5, 7)}, workers=1,
-                         timeout=900, simulate="num=%d" % ctx.pick(100, 2000), depth=10, args=["-seed", str(ctx.seed)])
     seen = set(json.dumps(b["prog"]) for b in beh)
     for b in sim:
         k = json.dumps(b["prog"])
@@ -29,7 +73,6 @@ def run(ctx):
     with open(p, "w") as f:
         for b in beh:
             f.write(json.dumps(b) + "\n")
-    vp, _ = ctx.tlc_gen("util", "HTTPReqGen", "HTTPReqGen.cfg", outfile="reqvectors.ndjson", workers=2, timeout=900)
     if not vp:
         raise Infra("HTTPReqGen wrote no vectors")
     lines = open(vp).read().splitlines()
@@ -39,16 +82,28 @@ def run(ctx):
         lines = lines[:2500]
     vp2 = os.path.join(ctx.scratch, "c36_req.ndjson")
     open(vp2, "w").write("\n".join(lines) + "\n")
-    recs = ctx.go_test("fasthttpadaptor", ["c36_"], "^TestVerifC36", infile=p, env={"VERIF_IN2": vp2}, timeout=1700)
+    if not sched:
+        raise Infra("HTTPAdaptorHistGen produced no schedules")
+    if not ctx.quick:
+        r = ctx.tlc("util", "HTTPAdaptorHist", "HTTPAdaptorHistUnsafe.cfg", workers=2, timeout=300, allow_codes=tuple(range(256)))
+        if "Invariant Inv is violated" not in r["out"]:
+            raise Infra("self-test failed: a shared pooled body does not violate Isolation in HTTPAdaptorHist.tla")
+    sp = os.path.join(ctx.scratch, "c36_sched.ndjson")
+    with open(sp, "w") as f:
+        for b in sched:
+            f.write(json.dumps(b) + "\n")
+    recs = ctx.go_test("fasthttpadaptor", ["c36_"], "^TestVerifC36", infile=p, timeout=1700,
+                       env={"VERIF_IN2": vp2, "VERIF_IN3": sp, "VERIF_C36_DRAWS": ctx.pick(2, 3)})
     ctx.absorb(recs)
     ctx.traces_validated = ctx.extra.get("programs", 0)
     ctx.exhaustive = not ctx.quick
     ctx.extra["programs_exhaustive_upto_len"] = n
     ctx.extra["programs_exhaustive"] = nex
     ctx.extra["request_vectors_total"] = total
-    ctx.rule = ("program case = one handler program run on both servers (all programs of <= %d calls over 11 ops + seeded longer ones); "
+    ctx.rule = ("program case = one handler program run on both servers (all programs of <= %d calls over 12 ops + seeded longer ones); history case = one serve/read schedule of K calls x size classes x one draw of programs (non-trivial = calls overlap); "
                 "non-trivial = >= 2 calls or a 1xx / post-commit header change; request case = one generated request; non-trivial = "
                 "has optional header fields, a body, HTTP/1.0 or an absolute-form target" % n)
-    ctx.assumptions = ["op menu: WriteHeader{103,200,204,404,500}, Header.Add X-A v1/v2, Set Content-Type, Write a/b, Flush",
+    ctx.assumptions = ["op menu: WriteHeader{103,200,204,404,500}, Header.Add X-A v1/v2, Set Content-Type, Write a/b, empty Write (nil / []byte{} / io.WriteString \"\"), Flush",
+                       "histories: K = 3 (quick) / 4 (thorough) calls through one adaptor handler, served in order, read in any order, body token sizes {1, 20000, 40000} bytes; handler called directly on each call's own RequestCtx",
                        "one request per connection (Connection: close), GET for handler programs",
                        "quick tier samples 2500 of the %d request vectors by seed" % total]
